@@ -630,6 +630,12 @@ func (u *Upstream) readResultLoop(ctx context.Context) {
 		for _, vv := range v {
 			vv := vv
 
+			// only the first result for an outstanding chunk is reported: a repeated result, or one for a
+			// sequence number that is not outstanding, is dropped
+			if !u.processResult(ctx, vv) {
+				continue
+			}
+
 			if u.afterHooker != nil {
 				u.eventDispatcher.addHandler(func() {
 					u.afterHooker.HookAfter(u.ID, UpstreamChunkResult{
@@ -638,11 +644,6 @@ func (u *Upstream) readResultLoop(ctx context.Context) {
 						ResultString:   vv.ResultString,
 					})
 				})
-			}
-
-			if err := u.processResult(ctx, vv); err != nil {
-				u.logger.Errorf(u.ctx, "failed to processResult: %+v", err)
-				continue
 			}
 		}
 	}
@@ -681,7 +682,8 @@ func (u *Upstream) processDataIDAliases(aliases map[uint32]*message.DataID) {
 	}
 }
 
-func (u *Upstream) processResult(ctx context.Context, result *message.UpstreamChunkResult) error {
+// processResult hands the result to the waiter of its chunk. It reports whether the chunk was outstanding.
+func (u *Upstream) processResult(ctx context.Context, result *message.UpstreamChunkResult) bool {
 	u.mu.Lock()
 	ch, ok := u.upstreamChunkResultChs[result.SequenceNumber]
 	if ok {
@@ -689,7 +691,7 @@ func (u *Upstream) processResult(ctx context.Context, result *message.UpstreamCh
 	}
 	u.mu.Unlock()
 	if !ok {
-		return nil
+		return false
 	}
 	// the channel has room for this one result even if its waiter already gave up (ack timeout)
 	select {
@@ -697,7 +699,7 @@ func (u *Upstream) processResult(ctx context.Context, result *message.UpstreamCh
 	case <-u.ctx.Done():
 	case ch <- result:
 	}
-	return nil
+	return true
 }
 
 func (u *Upstream) resume(newConn *wire.ClientConn, connGeneration uint64) error {
